@@ -1,6 +1,8 @@
 """C15 — State saving is atomic and converges to the latest state.
 
-Four streams on the real code, against a real temp directory:
+Streams on the real code, against a real temp directory (the State of every rig is *observed*: reads of its
+persisted public attributes by a save inside the encoder, and stores into them by a pairing change, are events
+at which a party can be parked or a fault injected; behaviour is unchanged):
   crash     a forked child runs AccessoryDriver.persist under sys.settrace and os._exit()s at the
             k-th source-line event inside the save (pyhap frames + json.dump), for every k;
   fault     wrappers around tempfile.NamedTemporaryFile, the temp file's write/close,
@@ -10,6 +12,19 @@ Four streams on the real code, against a real temp directory:
             jobs are parked at the same wrappers so that every (pause point of job 0) x (pause
             point of job 1) interleaving with the pairing changes is forced; random 3/4-job
             schedules on top;
+  midread   pairing changes that land between two attribute reads of one save (a save parked before each read
+            of encoder.persist in turn), saves that read while a pairing change is half done (the change parked
+            before each of its stores), random mixes; pairing changes run on a thread of their own, so "the
+            change waits for the save's reads" shows as blocked; after EVERY forced step (here and in
+            `schedule`), once nothing moves, the state file must be a complete loadable copy of a state the
+            accessory was in at a change boundary (a kill at that instant leaves exactly that file);
+  twin      two drivers whose state files are siblings in one directory, saving concurrently, one through a
+            failing pluggable encoder: both files right at the end, nothing else left in the directory;
+  lifecycle a driver that owns its loop and thread pool (no loop= argument) run through the public start()/stop();
+            the pool is sized by the driver for a small board (os.cpu_count() = 1, 2, 4) and a bridge carries
+            0 .. workers+3 accessories with a blocking run(), so a pairing change's save may sit in the pool's
+            queue when stop() is called; pair / unpair / config_changed on the loop, with and without time to
+            settle; judged after start() has returned and the pool's threads have ended: file == memory;
   natural   the same path free-running, with seeded jitter in the wrappers;
   public    every operation that changes the persisted state, through the real request handler or
             the public driver method that schedules its own save (pair-setup completion, add-pairing
@@ -21,10 +36,13 @@ Four streams on the real code, against a real temp directory:
             runs the job before the submitter's next statement / jobs start when the loop is idle);
             loop and default executor drain, then the file must equal the in-memory state.
 Oracle (independent of the model; harness/ref/statefile.py): after a failed or killed save the
-file is a complete loadable copy of the previous or the new state, a handled failure leaves no
-temp file; at quiescence the file equals the in-memory identity + pairings.
-Correspondence: the observed event trace of every crash/fault/schedule case is replayed through
-the Lean step relation (locked = the repaired code) and the predicted directory is compared.
+file is a complete loadable copy of the previous or the new state (after a kill, a real restart - new
+driver + add_accessory on the directory as left - restores exactly that state and can save again), a
+handled failure leaves no temp file; at every stable instant of a forced interleaving the file is a copy
+of a state that existed; at quiescence the file equals the in-memory identity + pairings.
+Correspondence: the observed event trace of every crash/fault/schedule/midread case (stores of changes,
+attribute reads and I/O calls of saves, in their real order) is replayed through the Lean step relation
+(locked + slocked = the repaired code) and the predicted directory is compared.
 """
 from __future__ import annotations
 
@@ -50,12 +68,16 @@ LEAN_MODULE = "Props.C15"
 LEVEL = "proof"
 TRUSTED = [
     "Lean 4.33 kernel; axioms propext, Classical.choice, Quot.sound only (audited by #print axioms)",
-    "hand-written model lean/HapModel/Persist.lean of AccessoryDriver.persist/async_persist/pair/unpair "
-    "(repaired code: lock around the body of persist), tied by this differential run on observed event traces",
-    "granularity: one model step per I/O call of a save (mktemp, state read, each chunk write, close, replace, "
-    "exists, remove); the state read of encoder.persist is atomic w.r.t. a pairing change in the model (the "
-    "harness serialises the two; a pairing change that lands between the three dict reads of encoder.persist "
-    "is not explored)",
+    "hand-written model lean/HapModel/Persist.lean of AccessoryDriver.persist/async_persist/pair/unpair, "
+    "AccessoryEncoder.persist and the changes of State (repaired code: lock around the body of persist, State.lock "
+    "around every change and around the encoder's reads), tied by this differential run on observed event traces",
+    "granularity: one model step per I/O call of a save (mktemp, each chunk write, close, replace, exists, remove), "
+    "per attribute of the state that the encoder reads (order learned from a probe save) and per store of a pairing "
+    "change; a thread switch inside the iteration over one dict is not a step (with State.lock it cannot happen; "
+    "without it the real outcome is a handled RuntimeError = a fault at that read); changes of the state are "
+    "serialised among themselves (pairing changes all run on the loop thread)",
+    "the observation of State (a subclass installed on the instance, dict subclasses for the three maps) does not "
+    "change what the code under check computes",
     "runtime outside the model (level is partial for it): power loss / missing fsync (page cache is assumed to "
     "survive process death, not machine death), POSIX semantics of os.replace (atomic within a directory; "
     "non-POSIX rename semantics are not covered), tempfile returning a fresh name, os.replace/os.remove "
@@ -77,13 +99,28 @@ ASSUMPTIONS = [
     "os.replace is atomic and either happens or raises (POSIX rename within one directory); non-POSIX rename "
     "semantics are not covered",
     "faults are raised by the wrapped call before it has any effect; the temp file name is fresh",
-    "interleavings are taken at the granularity of the I/O calls of a save job and of whole pairing changes "
-    "on the loop thread",
+    "interleavings are taken at the granularity of the I/O calls and single attribute reads of a save job and of "
+    "the single stores of a pairing change",
+    "a stable instant of a forced schedule (every party parked, blocked on a lock or finished) stands for a kill "
+    "at that instant: the directory a kill would leave is the directory seen",
 ]
 
 STATE_FILE = "accessory.state"
 POINTS = ("mktemp", "snapshot", "write", "close", "replace", "exists", "remove")
 CLEANUP_POINTS = ("exists", "remove")
+# the persisted attributes of State (public attributes; what harness/ref/statefile.canon_state compares).  Each is
+# one "component" of the model's memory; the order in which the encoder reads them is learned from a probe save.
+COMPONENTS = (
+    "paired_clients", "client_properties", "uuid_to_bytes", "mac", "config_version", "accessories_hash",
+    "private_key", "public_key",
+)
+DICT_COMPONENTS = COMPONENTS[:3]
+CHANGER = "L"  # the thread that changes the state (the loop thread), as a party of forced schedules
+
+
+def is_step(p: str) -> bool:
+    """An event that is a step of a save job in the model (an I/O call or one attribute read)."""
+    return p in POINTS or p.startswith("read:")
 # what a failing file-system call realistically reports (the third element of a fault: [point, nth, kind];
 # "os" = ENOSPC, "none" = an OSError without errno, "rt" = not an OSError at all)
 ERRNOS = ("os", "EBUSY", "EXDEV", "EACCES", "EIO", "EINTR", "none")
@@ -118,7 +155,6 @@ class FileProxy:
         return self._f.name
 
     def write(self, data):
-        self._h.release_state()  # the state has been read once the first chunk is written
         self._h.ev("write")
         r = self._f.write(data)
         self._h.after("write")
@@ -190,7 +226,6 @@ class Hooks:
         self.tls = threading.local()
         self.log: List[Tuple[Any, str, str]] = []
         self.loglock = threading.Lock()
-        self.state_mutex = threading.Lock()  # orders state reads of jobs against harness mutations
         self.sink = None  # optional fd: events are also written there (crash children)
         self.mark = None  # crash children: how many line events have happened so far
         self._orig: Dict[str, Any] = {}
@@ -210,11 +245,6 @@ class Hooks:
             if outcome == "fault" and self.mark is not None:
                 os.write(self.sink, f"mark {self.mark()}\n".encode())
 
-    def release_state(self):
-        if getattr(self.tls, "holds", False):
-            self.tls.holds = False
-            self.state_mutex.release()
-
     def ev(self, point):
         j = self.job()
         try:
@@ -222,10 +252,103 @@ class Hooks:
         except BaseException:
             self._log(j, point, "fault")
             raise
-        if point == "snapshot":
-            self.state_mutex.acquire()
-            self.tls.holds = True
         self._log(j, point, "ok")
+
+    # -- the state as the save and the changes see it
+    def read_event(self, name):
+        """A job, inside encoder.persist, is about to read attribute `name` of the state (first read only)."""
+        seen = self.tls.read_seen
+        if name in seen:
+            return
+        seen.add(name)
+        self.ev("read:" + name)
+
+    def begin_change(self):
+        t = self.tls
+        t.changing, t.change_open, t.last_idx = True, False, None
+
+    def write_event(self, name):
+        """The changing thread is about to store into attribute `name` of the state."""
+        t = self.tls
+        self.on_event(CHANGER, "mwrite:" + name)  # forced schedules may park the changing thread here
+        with self.loglock:
+            if not t.change_open:
+                t.change_open = True
+                self.log.append((None, "mbegin", "ok"))
+            self.log.append((None, "mwrite:" + name, "ok"))
+            t.last_idx = len(self.log) - 1
+
+    def end_change(self):
+        """The change has returned: it ended (and released whatever it held) right after its last store."""
+        t = self.tls
+        with self.loglock:
+            if not t.change_open:
+                self.log.append((None, "mbegin", "ok"))
+                t.last_idx = len(self.log) - 1
+            self.log.insert(t.last_idx + 1, (None, "mend", "ok"))
+        t.changing = False
+
+    def changing(self) -> bool:
+        return getattr(self.tls, "changing", False)
+
+    def observe_state(self, state):
+        """Make reads (by a job inside the encoder) and stores (by a bracketed change) of the persisted
+        public attributes of `state` visible as events.  Behaviour is unchanged: the attributes keep their
+        values, the three maps stay dicts (a subclass)."""
+        hooks = self
+        base = type(state)
+
+        class ObservedState(base):
+            def __getattribute__(self, name):
+                if name in COMPONENTS and hooks.job() is not None and getattr(hooks.tls, "in_encoder", False):
+                    hooks.read_event(name)
+                return base.__getattribute__(self, name)
+
+            def __setattr__(self, name, value):
+                if name in COMPONENTS and hooks.changing():
+                    hooks.write_event(name)
+                base.__setattr__(self, name, value)
+
+        class ObservedDict(dict):
+            __slots__ = ("_name",)
+
+            def _w(self):
+                if hooks.changing():
+                    hooks.write_event(self._name)
+
+            def __setitem__(self, k, v):
+                self._w()
+                dict.__setitem__(self, k, v)
+
+            def __delitem__(self, k):
+                self._w()
+                dict.__delitem__(self, k)
+
+            def pop(self, *a):
+                self._w()
+                return dict.pop(self, *a)
+
+            def popitem(self):
+                self._w()
+                return dict.popitem(self)
+
+            def clear(self):
+                self._w()
+                dict.clear(self)
+
+            def update(self, *a, **kw):
+                self._w()
+                dict.update(self, *a, **kw)
+
+            def setdefault(self, *a):
+                self._w()
+                return dict.setdefault(self, *a)
+
+        for n in DICT_COMPONENTS:
+            d = ObservedDict(getattr(state, n))
+            d._name = n
+            base.__setattr__(state, n, d)
+        state.__class__ = ObservedState
 
     def after(self, point):
         """The wrapped call has returned: a further place where a job can be parked (no event)."""
@@ -307,11 +430,12 @@ class Hooks:
         def persist(fp, state):
             if self.job() is None:
                 return orig(fp, state)
+            self.ev("snapshot")
+            self.tls.in_encoder, self.tls.read_seen = True, set()
             try:
-                self.ev("snapshot")
                 r = orig(fp, state)
             finally:
-                self.release_state()
+                self.tls.in_encoder = False
             self.after("snapshot")
             return r
 
@@ -491,6 +615,7 @@ class Rig:
     def __init__(self, ctl: Ctl, initial: List[dict], with_loop=True, write_initial=True):
         ad, _, _ = _pyhap()
         self.dir = tempfile.mkdtemp(prefix="c15-")
+        self.scratch = tempfile.mkdtemp(prefix="c15s-")
         self.path = os.path.join(self.dir, STATE_FILE)
         self.ctl = ctl
         self.hooks = Hooks(self.dir, ctl.arrive)
@@ -507,6 +632,7 @@ class Rig:
         self.state = self.driver.state
         for op in initial:
             apply_op_state(self.state, op)
+        self.hooks.observe_state(self.state)
         self.orig_encode = self.hooks.wrap_encoder(self.driver.encoder)
         self.njobs = 0
         self.deep = False
@@ -514,14 +640,49 @@ class Rig:
         self.futs: List[Any] = []
         self.versions: List[dict] = []  # canonical in-memory state per version
         self.chunks: List[List[str]] = []  # what encoder.persist writes for that version
+        self.changer: Optional[threading.Thread] = None
+        self.change_error: Optional[BaseException] = None
         if write_initial:
             self.driver.persist()  # not a job: no events
         self.init_text = self.read_target()
         self.record_version()
+        self.comp_index = self._probe_read_order()
         if with_loop:
             self._patch_executor()
 
     # -- bookkeeping
+    def _probe_read_order(self) -> Dict[str, int]:
+        """In which order does the encoder read the persisted attributes of the state?  (component numbers
+        of the model = positions in this order)"""
+        order: List[str] = []
+        base = type(self.state).__mro__[1]
+
+        class Probe:
+            def __getattr__(_s, name):
+                if name in COMPONENTS and name not in order:
+                    order.append(name)
+                return base.__getattribute__(self.state, name)
+
+        self.orig_encode(_Recorder(), Probe())
+        for n in COMPONENTS:  # never read: numbered last (a store into it is still a store)
+            if n not in order:
+                order.append(n)
+        self.nread = len([n for n in order])  # all of them are expected to be read
+        return {n: i for i, n in enumerate(order)}
+
+    def change(self):
+        """Bracket around a change of the state made by the calling thread."""
+        hooks = self.hooks
+
+        class _B:
+            def __enter__(_s):
+                hooks.begin_change()
+
+            def __exit__(_s, *a):
+                hooks.end_change()
+
+        return _B()
+
     def record_version(self):
         self.versions.append(ref.canon_state(self.state))
         rec = _Recorder()
@@ -559,7 +720,6 @@ class Rig:
                 outcome = "ok"
                 return r
             finally:
-                hooks.release_state()
                 hooks._log(jid, "end", outcome)
                 hooks.set_job(None)
                 ctl.finish(jid, outcome)
@@ -570,23 +730,28 @@ class Rig:
         orig = self.loop.run_in_executor
 
         def run_in_executor(executor, fn, *args):
-            jid = self.njobs
-            self.njobs += 1
+            if self.hooks.changing() and not getattr(self.hooks.tls, "recorded", False):
+                # the save is submitted from inside a pairing change: note the state of memory now, before the
+                # job exists (whatever it installs later must already be known to the oracle as a state that existed)
+                self.hooks.tls.recorded = True
+                self.record_version()
+            with self.hooks.loglock:
+                jid = self.njobs
+                self.njobs += 1
+                self.hooks.log.append((jid, "spawn", "ok"))
             f = orig(executor, self._job_fn(lambda: fn(*args), jid))
             self.futs.append(f)
             return f
 
         self.loop.run_in_executor = run_in_executor
 
-    def direct_job(self, after_mutation=False):
+    def direct_job(self):
         """driver.persist() called synchronously (as add_accessory / config_changed do), in a helper
-        thread so that a save that blocks forever is reported instead of hanging the check.
-        after_mutation: the job belongs to the pairing change just logged (model label `mutate`)."""
-        jid = self.njobs
-        self.njobs += 1
-        if not after_mutation:
-            with self.hooks.loglock:
-                self.hooks.log.append((jid, "spawn", "ok"))
+        thread so that a save that blocks forever is reported instead of hanging the check."""
+        with self.hooks.loglock:
+            jid = self.njobs
+            self.njobs += 1
+            self.hooks.log.append((jid, "spawn", "ok"))
         box: Dict[str, Any] = {}
 
         def target():
@@ -606,9 +771,9 @@ class Rig:
     def spawn_job(self):
         """driver.persist() from some other thread, not preceded by a pairing change (what
         config_changed() does), running concurrently with the background jobs."""
-        jid = self.njobs
-        self.njobs += 1
         with self.hooks.loglock:
+            jid = self.njobs
+            self.njobs += 1
             self.hooks.log.append((jid, "spawn", "ok"))
         fn = self._job_fn(self.driver.persist, jid)
 
@@ -622,23 +787,85 @@ class Rig:
         t.start()
         self.threads.append(t)
 
-    def mutate(self, op):
-        """A pairing change through the public driver API, on the loop thread."""
+    def mutate(self, op, until=None, timeout=0.15) -> str:
+        """A pairing change through the public driver API, on a thread of its own that plays the loop thread
+        (so that a change that has to wait for a save is seen as 'blocked' instead of wedging the check).
+        until = ["mwrite:<attribute>", n]: park the change before its n-th store into that attribute.
+        Returns 'done' | 'parked' | 'blocked' | 'busy' (the previous change has not ended yet)."""
+        if self.changer is not None and self.changer.is_alive():
+            return "busy"
+        ctl = self.ctl
+        with ctl.cond:
+            ctl.ended.pop(CHANGER, None)
+            ctl.parked.pop(CHANGER, None)
+            for k in [k for k in ctl.count if k[0] == CHANGER]:
+                del ctl.count[k]
+            ctl.stop[CHANGER] = None if until is None else {tuple(until)}
 
         async def go():
-            with self.hooks.state_mutex:
+            self.hooks.begin_change()
+            self.hooks.tls.recorded = False
+            try:
                 if op["op"] == "pair":
                     self.driver.pair(op["id"].encode(), bytes.fromhex(op["key"]), bytes([op["perm"]]))
                 else:
                     self.driver.unpair(uuid.UUID(op["id"]))
-                with self.hooks.loglock:
-                    self.hooks.log.append((None, "mutate", "ok"))
+            finally:
+                self.hooks.end_change()
+            if not self.hooks.tls.recorded:
                 self.record_version()
 
-        self.loop.run_until_complete(go())
+        def run():
+            try:
+                self.loop.run_until_complete(go())
+            except BaseException as ex:  # noqa: BLE001
+                self.change_error = ex
+            finally:
+                ctl.finish(CHANGER, "ok")
+
+        t = threading.Thread(target=run, daemon=True)
+        self.changer = t
+        t.start()
+        deadline = time.monotonic() + timeout
+        with ctl.cond:
+            while CHANGER not in ctl.ended and CHANGER not in ctl.parked:
+                rem = deadline - time.monotonic()
+                if rem <= 0:
+                    return "blocked"
+                ctl.cond.wait(rem)
+            return "done" if CHANGER in ctl.ended else "parked"
+
+    def settle_changer(self, timeout):
+        """Wait until the pairing change in flight (if any) has ended or is parked; if it does neither within
+        `timeout` it is waiting for a lock that a parked save holds, which is stable too."""
+        ctl = self.ctl
+        if not self.change_in_flight():
+            return
+        deadline = time.monotonic() + timeout
+        with ctl.cond:
+            while CHANGER not in ctl.ended and CHANGER not in ctl.parked:
+                rem = deadline - time.monotonic()
+                if rem <= 0:
+                    return
+                ctl.cond.wait(rem)
+        if CHANGER in ctl.ended and self.changer is not None:
+            self.changer.join(1.0)
+
+    def change_in_flight(self) -> bool:
+        return self.changer is not None and self.changer.is_alive()
+
+    def join_changer(self):
+        if self.changer is not None:
+            self.changer.join(HANG_S)
+            if self.changer.is_alive():
+                raise Hung(f"a pairing change did not return within {HANG_S:.0f} s")
+        if self.change_error is not None:
+            ex, self.change_error = self.change_error, None
+            raise RuntimeError(f"pairing change raised {type(ex).__name__}: {ex}")
 
     def drain(self):
         self.ctl.release_all()
+        self.join_changer()
         if self.futs:
 
             async def wait():
@@ -660,9 +887,13 @@ class Rig:
                     self.loop.run_until_complete(asyncio.wait_for(self.loop.shutdown_default_executor(), 5))
                 except Exception:  # noqa: BLE001
                     pass
-                self.loop.close()
+                try:
+                    self.loop.close()
+                except Exception:  # noqa: BLE001  (a change that never returned still runs the loop)
+                    pass
         finally:
             shutil.rmtree(self.dir, ignore_errors=True)
+            shutil.rmtree(self.scratch, ignore_errors=True)
 
 
 class _Recorder:
@@ -716,33 +947,92 @@ def judge_file(path, allowed: List[Tuple[str, Optional[dict]]]) -> Tuple[Optiona
     )
 
 
+def restart_check(path: str, expect: Optional[dict]) -> Optional[str]:
+    """A real restart on the directory exactly as the dead process left it (stray temp files included): a new
+    driver on the same persist file, add_accessory() (which loads the file, or stores a first one).  None if
+    the restarted accessory holds `expect` (None: there was no file, any fresh identity will do) and its next
+    save stores its state; else why not."""
+    ad, _, _ = _pyhap()
+    from pyhap.accessory import Accessory
+
+    loop = asyncio.new_event_loop()
+    try:
+        drv = ad.AccessoryDriver(
+            loop=loop, persist_file=path, address="127.0.0.1", port=51827, mac="11:22:33:44:55:66", pincode=b"031-45-154"
+        )
+        drv.add_accessory(Accessory(drv, "Lamp"))
+        got = ref.canon_state(drv.state)
+        if expect is not None and got != expect:
+            return "the restarted accessory does not hold the state of the file: " + ref.diff(got, expect)
+        drv.persist()
+        if ref.canon_file(path) != ref.canon_state(drv.state):
+            return "the first save after the restart does not store the accessory's state"
+        return None
+    except Exception as ex:  # noqa: BLE001
+        return f"the restart raised {type(ex).__name__}: {ex}"
+    finally:
+        loop.close()
+
+
 # --------------------------------------------------------------------------- model side
 
 
-def translate(rlog: List[Tuple[Any, str, str]], crashed=False):
-    """Observed events -> model labels and the step names the model must report for them."""
+def translate(rlog: List[Tuple[Any, str, str]], comp_index: Dict[str, int], crashed=False):
+    """Observed events -> model labels and the step names the model must report for them.
+    A store of a change is `mwrite c`, its end `mend` (no job: the submission is the `spawn` that follows);
+    every attribute read of a save is a step of its own; after the last attribute has been read the save
+    moves on to writing (`dump`, no event of its own)."""
+    ncomp = len(comp_index)
     last_io: Dict[Any, int] = {}
     ended = set()
     for i, (j, p, _) in enumerate(rlog):
-        if p in POINTS:
+        if is_step(p):
             last_io[j] = i
         if p == "end":
             ended.add(j)
+    # a save that reaches its close has left `with state.lock` before (no event of its own): that step is placed
+    # right after the save's last step before the close (its last chunk write)
+    release_after = set()
+    prev_step: Dict[Any, int] = {}
+    for i, (j, p, _) in enumerate(rlog):
+        if p == "close" and j in prev_step:
+            release_after.add(prev_step[j])
+        if is_step(p):
+            prev_step[j] = i
     labels: List[list] = []
     names: List[str] = []
+    nreads: Dict[Any, int] = {}
     for i, (j, p, o) in enumerate(rlog):
-        if p == "mutate":
-            labels.append(["mutate"])
-            names.append("mutate")
+        if p == "mbegin":
+            labels.append(["mbegin"])
+            names.append("mbegin")
+        elif p.startswith("mwrite:"):
+            c = comp_index[p[7:]]
+            labels.append(["mwrite", c])
+            names.append(f"mwrite{c}")
+        elif p == "mend":
+            labels.append(["mend", False])
+            names.append("mend")
         elif p == "spawn":
             labels.append(["spawn"])
             names.append("spawn")
-        elif p in POINTS:
+        elif is_step(p):
             if p == "mktemp":
                 labels.append(["adv", j])
                 names.append(f"{j}:start")
             labels.append(["adv" if o == "ok" else "fault", j])
-            names.append(f"{j}:{p}" + ("" if o == "ok" else "!"))
+            if p.startswith("read:"):
+                names.append(f"{j}:read{comp_index[p[5:]]}" + ("" if o == "ok" else "!"))
+                if o == "ok":
+                    nreads[j] = nreads.get(j, 0) + 1
+                    if nreads[j] == ncomp:
+                        labels.append(["adv", j])
+                        names.append(f"{j}:dump")
+            else:
+                names.append(f"{j}:{p}" + ("" if o == "ok" else "!"))
+            if i in release_after:
+                labels.append(["adv", j])
+                names.append(f"{j}:release")
             if last_io.get(j) == i and j in ended:
                 labels.append(["adv", j])
                 names.append(f"{j}:unlock")
@@ -752,20 +1042,40 @@ def translate(rlog: List[Tuple[Any, str, str]], crashed=False):
     return labels, names
 
 
-def model_case(rig_init: Optional[str], chunks: List[List[str]], labels, names):
+def model_case(rig_init: Optional[str], chunks: List[List[str]], labels, names, ncomp: int):
+    """chunks[k] = what the encoder writes for the state after the k-th change (k = 0: the start state).
+    The serialisation table of the model maps the vector of component versions at each change boundary
+    (counted off the labels) to those chunks; a vector that is no such state has no entry."""
     table: Dict[int, str] = {}
-    snaps = []
-    for v, cs in enumerate(chunks):
-        assert len(cs) < 1000
-        ids = [v * 1000 + i for i in range(len(cs))]
-        for i, c in zip(ids, cs):
-            table[i] = c
-        snaps.append(ids)
+    ser = []
+    vec = [0] * ncomp
+    k = 0
+
+    def entry():
+        if k < len(chunks):
+            cs = chunks[k]
+            assert len(cs) < 1000
+            ids = [k * 1000 + i for i in range(len(cs))]
+            for i, c in zip(ids, cs):
+                table[i] = c
+            if not any(v == vec for v, _ in ser):
+                ser.append([list(vec), ids])
+
+    entry()
+    for lab in labels:
+        if lab[0] == "mwrite":
+            vec[lab[1]] += 1
+        elif lab[0] == "mend":
+            k += 1
+            entry()
     init = None
     if rig_init is not None:
         init = [INIT_ID]
         table[INIT_ID] = rig_init
-    line = {"layer": "persist", "op": "run", "locked": True, "snaps": snaps, "init": init, "labels": labels}
+    line = {
+        "layer": "persist", "op": "run", "locked": True, "slocked": True, "mem0": [0] * ncomp, "ser": ser,
+        "init": init, "labels": labels,
+    }
     return {"line": line, "table": table, "names": names}
 
 
@@ -787,10 +1097,13 @@ def compare_model(mc, ans, target: Optional[str], temps: List[str], crash=False)
             if a != b:
                 return {"why": "step names differ", "index": i, "model": a, "impl": b}
         return {"why": "step count differs", "model": len(ans["steps"]), "impl": len(mc["names"])}
-    mt = None if ans["target"] is None else "".join(tbl[i] for i in ans["target"])
+    def text(ids):
+        return "".join(tbl.get(i, "<a mix of two states>") for i in ids)
+
+    mt = None if ans["target"] is None else text(ans["target"])
     if mt != target:
         return {"why": "state file differs", "model": _short(mt), "impl": _short(target)}
-    mtemps = sorted("".join(tbl[i] for i in ids) for _, ids in ans["temps"])
+    mtemps = sorted(text(ids) for _, ids in ans["temps"])
     if len(mtemps) != len(temps):
         return {"why": "number of temp files differs", "model": len(mtemps), "impl": len(temps)}
     if crash:
@@ -938,6 +1251,16 @@ def crash_scenario(ctx: Ctx, scn: dict, model_cases: list, only_k: Optional[int]
             target = rig.read_target()
             temps = rig.temps()
             replay = {"kind": "crash", "scenario": scn, "k": k}
+            if which is not None and crashed and (not rig.deep or k % 5 == 0 or only_k):
+                bad = restart_check(path, dict(allowed)[which])
+                st.hit("outcome", "crash:restart=" + ("ok" if bad is None else "BROKEN"))
+                if bad is not None:
+                    ctx.fail(
+                        "C15:restart-after-crash-does-not-restore-state",
+                        f"process killed at source-line event {k} of the save, the state file is a complete copy of the "
+                        f"{which} state, {len(temps)} stray temp file(s); then a new driver was started on that directory: {bad}",
+                        replay,
+                    )
             if which is None:
                 sig = (
                     "C15:crash-leaves-incomplete-state-file" if crashed
@@ -954,10 +1277,10 @@ def crash_scenario(ctx: Ctx, scn: dict, model_cases: list, only_k: Optional[int]
                 )
             st.hit("op", "crash-point")
             st.hit("outcome", f"crash:file={which or 'BROKEN'}" + (f":temps={len(temps)}" if temps else ""))
-            npoints = sum(1 for e in rlog if e[1] in POINTS)
+            npoints = sum(1 for e in rlog if is_step(e[1]))
             st.case(["crash", scn["name"], k], crashed)
-            labels, names = translate(rlog, crashed=crashed)
-            mc = model_case(None if prev_bytes is None else prev_bytes.decode(), [new_chunks], labels, names)
+            labels, names = translate(rlog, rig.comp_index, crashed=crashed)
+            mc = model_case(None if prev_bytes is None else prev_bytes.decode(), [new_chunks], labels, names, len(rig.comp_index))
             mc.update(stream="crash", case={"scenario": scn["name"], "k": k, "events": npoints}, target=target, temps=temps, crash=True)
             if not rig.deep:  # inside library frames a wrapped call may be half done: oracle only
                 model_cases.append(mc)
@@ -965,7 +1288,7 @@ def crash_scenario(ctx: Ctx, scn: dict, model_cases: list, only_k: Optional[int]
                 print(f"crash at line event {k}: events={[e[1] for e in rlog]} file={which or 'BROKEN: ' + why} temps={len(temps)}")
             if crashed and which == "new" and not any(isinstance(s, dict) and s.get("stream") == "crash" for s in st.samples):
                 st.sample(
-                    {"stream": "crash", "scenario": scn["name"], "killed_at_line_event": k, "last_io_calls_before_death": [e[1] for e in rlog if e[1] in POINTS][-4:], "file_is": which, "stray_temps": len(temps)}
+                    {"stream": "crash", "scenario": scn["name"], "killed_at_line_event": k, "last_io_calls_before_death": [e[1] for e in rlog if is_step(e[1])][-4:], "file_is": which, "stray_temps": len(temps)}
                 )
             shutil.rmtree(d, ignore_errors=True)
             if probing:
@@ -1012,7 +1335,15 @@ def crash_scenarios(ctx: Ctx) -> List[dict]:
         for n in range(ctx.n(0, 3)):
             i0, ops = mk_ops(rng, rng.randrange(0, 4), rng.randrange(1, 3))
             out.append({"name": f"random-{n}", "initial": i0, "ops": ops, "prev_on_disk": True})
+    if _lite(ctx):  # bounded repeat (interpreter variant): every 3rd kill point, fewer fault pairs
+        keep = [s for s in out if not s.get("faults")] + [s for s in out if s.get("faults")][:2]
+        out = [dict(s, stride=max(int(s.get("stride", 1)), 3), offset=s.get("offset", rng.randrange(1, 4))) for s in keep]
     return out
+
+
+def _lite(ctx: Ctx) -> bool:
+    """A bounded repeat of the run (harness/check.py: interpreter variants): enumerations are thinned out."""
+    return getattr(ctx, "budget_scale", 1.0) < 1.0
 
 
 # --------------------------------------------------------------------------- stream: fault
@@ -1035,13 +1366,12 @@ def fault_case(ctx: Ctx, scn: dict, saves: List[List[list]], model_cases: list, 
             for i, fs in enumerate(saves):
                 changed = bool(ops)
                 if changed:
-                    apply_op_state(rig.state, ops.pop(0))
-                    with rig.hooks.loglock:
-                        rig.hooks.log.append((None, "mutate", "ok"))
+                    with rig.change():
+                        apply_op_state(rig.state, ops.pop(0))
                     rig.record_version()
                 new = ("new", rig.versions[-1])
                 before = rig.temp_names()
-                r = rig.direct_job(after_mutation=changed)
+                r = rig.direct_job()
                 left = rig.temp_names() - before
                 fired = [f for f in ctl.fired if f[0] == i]
                 raised = r != "ok"
@@ -1073,8 +1403,8 @@ def fault_case(ctx: Ctx, scn: dict, saves: List[List[list]], model_cases: list, 
                     print(f"save {i}: faults fired {[(p, n) for _, p, n in fired]} -> {'raised ' + type(r).__name__ if raised else 'returned'}; file={which or 'BROKEN: ' + why}; temps={len(temps)}")
         st.case(["fault", scn["name"], saves], bool(ctl.fired))
         ctx.last_fault_log = list(rig.hooks.log)
-        labels, names = translate(rig.hooks.log)
-        mc = model_case(rig.init_text, rig.chunks, labels, names)
+        labels, names = translate(rig.hooks.log, rig.comp_index)
+        mc = model_case(rig.init_text, rig.chunks, labels, names, len(rig.comp_index))
         mc.update(stream="fault", case={"scenario": scn["name"], "saves": saves}, target=rig.read_target(), temps=rig.temps(), crash=False)
         model_cases.append(mc)
         return ctl.count
@@ -1099,6 +1429,8 @@ def fault_stream(ctx: Ctx, model_cases: list):
         i0, ops = mk_ops(rng, 3, 3)
         ops[0] = {"op": "unpair", "id": i0[2]["id"]}
         scns.append({"name": "shrinking", "initial": i0, "ops": ops, "prev_on_disk": True})
+    if _lite(ctx):
+        scns = scns[:1]
     for scn in scns:
         counts = fault_case(ctx, scn, [[]], model_cases)  # clean save: how often each call happens
         per_point = {p: counts.get((0, p), 0) for p in POINTS}
@@ -1108,6 +1440,9 @@ def fault_stream(ctx: Ctx, model_cases: list):
             top = max(per_point[p], 1)
             for n in range(1, top + 2):
                 fault_case(ctx, scn, [[[p, n]]], model_cases)
+        # a failing read of each attribute of the state inside the encoder
+        for name in COMPONENTS:
+            fault_case(ctx, scn, [[["read:" + name, 1, "rt"]]], model_cases)
         # failures that are not OSErrors (a failing encoder / codec), at every kind of step
         for p in ("mktemp", "snapshot", "close", "replace"):
             fault_case(ctx, scn, [[[p, 1, "rt"]]], model_cases)
@@ -1119,7 +1454,7 @@ def fault_stream(ctx: Ctx, model_cases: list):
         def followers_of(log):
             seen: Dict[str, int] = {}
             out, last = [], -1
-            evs = [(pt, oc) for jj, pt, oc in log if jj == 0 and pt not in ("begin", "end", "spawn", "mutate")]
+            evs = [(pt, oc) for jj, pt, oc in log if jj == 0 and pt not in ("begin", "end", "spawn")]
             for idx, (pt, oc) in enumerate(evs):
                 if oc == "fault":
                     last = idx
@@ -1190,10 +1525,12 @@ def pause_points(nwrites: int) -> List[Optional[list]]:
     ]
 
 
-def schedule_case(ctx: Ctx, scn: dict, cmds: List[list], model_cases: list, timeout=0.15, faults=(), verbose=False):
-    """cmds: ["mut", op] (pairing change through driver.pair/unpair -> a background job), ["save"] (a direct
-    driver.persist() from another thread, as config_changed() does),
-    ["run", j, [point, nth] | None] (let job j run until it is about to perform that call / to its end).
+def schedule_case(ctx: Ctx, scn: dict, cmds: List[list], model_cases: list, timeout=0.15, faults=(), verbose=False, stop_after=None):
+    """cmds: ["mut", op] (pairing change through driver.pair/unpair -> a background job; ["mut", op, [point, nth]]
+    parks the change before that store, e.g. ["mwrite:paired_clients", 1]), ["runL"] (let a parked change run to
+    its end), ["save"] (a direct driver.persist() from another thread, as config_changed() does),
+    ["run", j, [point, nth] | None] (let job j run until it is about to perform that call / to its end; points are
+    the I/O calls and "read:<attribute>" = the encoder's read of that attribute of the state).
     Returns per-run results.  At the end everything is released and awaited."""
     if getattr(ctx, "hung", False):
         return [], []
@@ -1204,14 +1541,61 @@ def schedule_case(ctx: Ctx, scn: dict, cmds: List[list], model_cases: list, time
     results = []
     overlap = False
     try:
+        mixed_seen = False
+        loose: set = set()  # jobs that were let go after they did not reach their stop (waiting for a lock)
+
+        def judge_instant(i):
+            """Nothing moves right now (every party is parked, blocked or has ended): a kill at this instant
+            leaves exactly this directory.  The state file must be a complete loadable copy of a state the
+            accessory was in at a change boundary."""
+            nonlocal mixed_seen
+            if mixed_seen or fired_any():
+                return
+            rig.settle_changer(timeout)
+            loose.difference_update(set(ctl.ended))
+            if loose:  # a job that had to wait for a lock runs free now: not a stable instant
+                st.hit("outcome", "sched:instant-not-judged(a-job-runs-free)")
+                return
+            allowed = [("initial", rig.versions[0])] + [(f"version{v}", c) for v, c in enumerate(rig.versions) if v > 0]
+            if not rig.change_in_flight():
+                allowed.append(("memory", ref.canon_state(rig.state)))
+            seen_path = os.path.join(rig.scratch, "seen.state")  # one atomic look at the file
+            try:
+                shutil.copyfile(rig.path, seen_path)
+            except FileNotFoundError:
+                if os.path.lexists(seen_path):
+                    os.remove(seen_path)
+            which, why = judge_file(seen_path, allowed)
+            if which is None:
+                mixed_seen = True
+                complete = ref.canon_file(seen_path) is not None
+                ctx.fail(
+                    "C15:state-file-mixes-two-states" if complete else "C15:crash-leaves-incomplete-state-file",
+                    f"after forced step {i} ({cmds[i][0]}) of an interleaving of save jobs and pairing changes, with every "
+                    "thread parked, blocked or finished (a kill here leaves exactly this directory): " + why,
+                    dict(replay, stop_after=i),
+                )
+            st.hit("outcome", "sched:instant-file=" + (which.rstrip("0123456789") if which else "NO-STATE-THAT-EXISTED"))
+
+        def fired_any():
+            return bool(ctl.fired)
+
         with rig.hooks:
-            for c in cmds:
+            for ci, c in enumerate(cmds):
+                if stop_after is not None and ci > stop_after:
+                    break
                 if c[0] == "mut":
-                    rig.mutate(c[1])
-                    results.append("job%d" % (rig.njobs - 1))
+                    r = rig.mutate(c[1], c[2] if len(c) > 2 else None, timeout)
+                    results.append(r)
+                    st.hit("outcome", "sched:change-" + r)
+                    judge_instant(ci)
                 elif c[0] == "save":
                     rig.spawn_job()
                     results.append("job%d" % (rig.njobs - 1))
+                elif c[0] == "runL":
+                    r = ctl.run(CHANGER, c[1] if len(c) > 1 else None, timeout) if rig.changer is not None else "nochange"
+                    results.append(r)
+                    judge_instant(ci)
                 else:
                     _, j, until = c
                     if j >= rig.njobs:
@@ -1224,7 +1608,10 @@ def schedule_case(ctx: Ctx, scn: dict, cmds: List[list], model_cases: list, time
                         overlap = True
                     r = ctl.run(j, until, timeout)
                     results.append(r)
+                    if r == "timeout":
+                        loose.add(j)
                     st.hit("outcome", "sched:run-" + r + ("-while-another-job-is-mid-save" if midsave else ""))
+                    judge_instant(ci)
             rig.drain()
         mem = ref.canon_state(rig.state)
         fired = list(ctl.fired)
@@ -1253,8 +1640,8 @@ def schedule_case(ctx: Ctx, scn: dict, cmds: List[list], model_cases: list, time
             st.hit("outcome", "sched:faulty-file=" + (which or "BROKEN"))
         st.hit("op", "schedule")
         st.case(["sched", scn["name"], cmds, [list(f) for f in faults]], overlap)
-        labels, names = translate(rig.hooks.log)
-        mc = model_case(rig.init_text, rig.chunks, labels, names)
+        labels, names = translate(rig.hooks.log, rig.comp_index)
+        mc = model_case(rig.init_text, rig.chunks, labels, names, len(rig.comp_index))
         mc.update(stream="schedule", case={"scenario": scn["name"], "cmds": cmds, "faults": [list(f) for f in faults]}, target=rig.read_target(), temps=temps, crash=False)
         model_cases.append(mc)
         if verbose:
@@ -1290,7 +1677,7 @@ def schedule_stream(ctx: Ctx, model_cases: list):
     blocked_p = set()
     sampled = False
     for p in pts:
-        for q in [None] + pts[:-1]:
+        for q in [None] + (pts[:-1] if not _lite(ctx) else [["replace", 1]]):
             for reverse in (False, True):
                 if q is None and reverse:
                     continue
@@ -1301,9 +1688,10 @@ def schedule_stream(ctx: Ctx, model_cases: list):
                     st.hit("outcome", "sched:skipped-equivalent(job1-blocked-until-job0-ends)")
                     continue
                 res, rlog = schedule_case(ctx, scn, two_job_cmds(ops[0], ops[1], p, q, reverse), model_cases)
-                if len(res) > 3 and res[3] == "timeout":
-                    # job 1 could not reach its pause point while job 0 sits at p: mutual exclusion at work;
-                    # every q is then the same schedule
+                if len(res) > 3 and (res[3] == "timeout" or res[2] == "blocked"):
+                    # job 1 could not reach its pause point while job 0 sits at p (mutual exclusion at work), or the
+                    # second pairing change itself had to wait for job 0's reads (job 1 did not exist yet): every q
+                    # is then the same schedule
                     blocked_p.add(key)
                 if not sampled and p == ["replace", 1] and q is None:
                     sampled = True
@@ -1344,6 +1732,372 @@ def schedule_stream(ctx: Ctx, model_cases: list):
         schedule_case(ctx, {"name": f"random-{n}", "initial": i0}, cmds, model_cases, timeout=0.1, faults=faults)
 
 
+# --------------------------------------------------------------------------- stream: midread
+
+
+def midread_stream(ctx: Ctx, model_cases: list):
+    """Pairing changes that land *inside* the state reads of a save, and saves that read *inside* a pairing
+    change: (a) a background save is parked before each attribute read of the encoder in turn (and before
+    its first write / its close), a pairing change is made there, the save finishes, the change's own save
+    runs; (b) a pairing change is parked before each of its stores in turn, a save (as config_changed() makes
+    from another thread) runs meanwhile.  After every forced step the state file is judged: a complete
+    loadable copy of a state the accessory was in at a change boundary (a kill there leaves that file)."""
+    rng = ctx.rng
+    st = ctx.stats
+    i0, _ = mk_ops(rng, 2, 0)
+    i0[1]["perm"] = 0  # one admin, one user
+    probe = Rig(Ctl(), i0, with_loop=False)
+    order = sorted(probe.comp_index, key=probe.comp_index.get)
+    probe.close()
+    st.notes.append(f"midread: the encoder reads the state's attributes in the order {order}")
+    first = mk_ops(rng, 0, 1)[1][0]
+    newc = dict(mk_ops(rng, 0, 1)[1][0], perm=1)
+    seconds = [
+        ("pair-new", newc),
+        ("unpair-user", {"op": "unpair", "id": i0[1]["id"]}),
+        ("unpair-last-admin-sweeps-all", {"op": "unpair", "id": i0[0]["id"]}),
+    ]
+    sampled = False
+    read_points = [["read:" + n, 1] for n in order] + [["write", 1], ["close", 1]]
+    for name, op2 in seconds:
+        scn = {"name": "midread-" + name, "initial": i0 if name != "unpair-last-admin-sweeps-all" else i0}
+        opA = first if name != "unpair-last-admin-sweeps-all" else dict(first, perm=0)
+        for pt in read_points:
+            if ctx.quick and name != "pair-new" and pt[0] in ("read:mac", "read:private_key", "read:public_key", "write"):
+                continue
+            if _lite(ctx) and (name != "pair-new" or pt[0] in ("read:mac", "read:private_key", "read:public_key")):
+                continue
+            cmds = [["mut", opA], ["run", 0, pt], ["mut", op2], ["run", 0, None], ["run", 1, None], ["runL"], ["run", 1, None]]
+            res, rlog = schedule_case(ctx, scn, cmds, model_cases, timeout=0.1)
+            st.hit("op", "midread:change-inside-a-save")
+            if not sampled and pt[0] == "read:client_properties":
+                sampled = True
+                st.sample({"stream": "midread", "cmds": f"pair A -> job0; run job0 until it reads {pt[0][5:]}; {name}; run job0 to end; run job1", "forced_step_results": res, "events": [f"{j}:{e}" if j is not None else e for j, e, _ in rlog if e not in ("write",)][:40]})
+    # (b) a save that reads while a change is half done
+    stores_pair = ["uuid_to_bytes", "paired_clients", "client_properties"]
+    for name, op2, stores in (
+        ("pair-new", newc, stores_pair),
+        ("unpair-user", {"op": "unpair", "id": i0[1]["id"]}, stores_pair),
+        ("unpair-last-admin-sweeps-all", {"op": "unpair", "id": i0[0]["id"]}, stores_pair),
+    ):
+        for w in stores:
+            for nth in (1, 2) if name == "unpair-last-admin-sweeps-all" and w != "uuid_to_bytes" else (1,):
+                scn = {"name": "midchange-" + name, "initial": i0}
+                cmds = [["mut", first], ["run", 0, None], ["mut", op2, ["mwrite:" + w, nth]], ["save"], ["run", 1, None], ["runL"], ["run", 1, None], ["run", 2, None]]
+                schedule_case(ctx, scn, cmds, model_cases, timeout=0.1)
+                st.hit("op", "midread:save-inside-a-change")
+    # random: 2-3 changes and extra saves, parking points drawn from reads and stores
+    pts_job = [["read:" + n, 1] for n in order[:6]] + [["mktemp", 1], ["write", 1], ["close", 1], ["replace", 1], None]
+    pts_chg = [["mwrite:" + w, 1] for w in stores_pair] + [None, None]
+    for n in range(ctx.n(8, 120)):
+        ini, ops = mk_ops(rng, rng.randrange(1, 3), rng.randrange(2, 4))
+        cmds: List[list] = []
+        njobs = 0
+        for op in ops:
+            u = rng.choice(pts_chg)
+            cmds.append(["mut", op] + ([u] if u else []))
+            if u:
+                if rng.random() < 0.6:
+                    cmds.append(["save"])
+                    njobs += 1
+                    cmds.append(["run", njobs - 1, rng.choice(pts_job)])
+                cmds.append(["runL"])
+            njobs += 1
+            for _ in range(rng.randrange(0, 3)):
+                cmds.append(["run", rng.randrange(njobs), rng.choice(pts_job)])
+        order_j = list(range(njobs))
+        rng.shuffle(order_j)
+        cmds += [["runL"]] + [["run", j, None] for j in order_j]
+        schedule_case(ctx, {"name": f"midread-random-{n}", "initial": ini}, cmds, model_cases, timeout=0.1)
+        st.hit("op", "midread:random")
+
+
+# --------------------------------------------------------------------------- stream: twin
+
+
+def twin_case(ctx: Ctx, scn: dict, verbose=False) -> None:
+    """Two drivers whose state files are siblings in ONE directory (temp files of both are created there),
+    saving concurrently from two threads, each with its own pairing changes; every `fail_every`-th save of
+    driver A fails inside its (pluggable, public constructor parameter) encoder after a partial write.  At the
+    end each file is its own driver's state and the directory holds nothing else."""
+    ad, enc, _ = _pyhap()
+    st = ctx.stats
+    d = tempfile.mkdtemp(prefix="c15t-")
+    replay = {"kind": "twin", "scenario": scn}
+    try:
+        calm: List[bool] = []  # non-empty: the failing encoder behaves (the last save of a driver is a clean one)
+
+        class Failing(enc.AccessoryEncoder):
+            n = 0
+
+            def persist(self, fp, state):
+                type(self).n += 1
+                if scn["fail_every"] and not calm and type(self).n % scn["fail_every"] == 0:
+                    fp.write('{"mac": "half a docu')
+                    raise Injected(errno.ENOSPC, "injected: disk full inside the encoder")
+                return enc.AccessoryEncoder.persist(fp, state)
+
+        drivers = []
+        for i, name in enumerate(("a.state", "b.state")):
+            lp = asyncio.new_event_loop()
+            kw = dict(loop=lp, persist_file=os.path.join(d, name), address="127.0.0.1", port=51830 + i, mac=f"AA:BB:CC:DD:EE:0{i}", pincode=b"031-45-154")
+            drv = ad.AccessoryDriver(encoder=Failing(), **kw) if i == 0 else ad.AccessoryDriver(**kw)
+            lp.close()
+            drv.persist()
+            drivers.append(drv)
+        errors: List[str] = []
+        raised = [0, 0]
+
+        def work(i):
+            drv = drivers[i]
+            for op in scn["ops"][i]:
+                apply_op_state(drv.state, op)
+                try:
+                    drv.persist()
+                except Injected:
+                    raised[i] += 1
+                except Exception as ex:  # noqa: BLE001
+                    errors.append(f"driver {i}: persist raised {type(ex).__name__}: {ex}")
+            try:
+                if i == 0:
+                    calm.append(True)
+                drv.persist()
+            except Exception as ex:  # noqa: BLE001
+                errors.append(f"driver {i}: final persist raised {type(ex).__name__}: {ex}")
+
+        ts = [threading.Thread(target=work, args=(i,), daemon=True) for i in (0, 1)]
+        for t in ts:
+            t.start()
+        for t in ts:
+            t.join(HANG_S)
+            if t.is_alive():
+                raise Hung("a save of one of two drivers sharing a directory did not return")
+        for e in errors:
+            ctx.fail("C15:save-disturbed-by-sibling-driver", e, replay)
+        for i, drv in enumerate(drivers):
+            which, why = judge_file(drv.persist_file, [("memory", ref.canon_state(drv.state))])
+            if which is None:
+                ctx.fail("C15:file-stale-after-interleaved-saves", f"two drivers saving into one directory, driver {i}: {why}", replay)
+        left = sorted(set(os.listdir(d)) - {"a.state", "b.state"})
+        if left:
+            ctx.fail("C15:handled-failure-leaves-temp-file", f"two drivers saving into one directory ({raised[0]} saves of driver 0 failed and were handled): {len(left)} temp file(s) left", replay)
+        st.hit("op", "twin-run")
+        st.hit("outcome", f"twin:failed-saves={'some' if raised[0] else 'none'}:left={len(left)}")
+        st.case(["twin", scn], True)
+        if verbose:
+            print(f"two drivers, one directory: {raised[0]} handled failures; files ok; left over: {left}")
+    except Hung as ex:
+        ctx.hung = True
+        ctx.fail("C15:save-blocks-forever", f"twin: {ex}", replay)
+    finally:
+        shutil.rmtree(d, ignore_errors=True)
+
+
+def twin_stream(ctx: Ctx, model_cases: list):
+    rng = ctx.rng
+    for n in range(ctx.n(4, 40)):
+        opsA = mk_ops(rng, 0, rng.randrange(3, 8))[1]
+        opsB = mk_ops(rng, 0, rng.randrange(3, 8))[1]
+        twin_case(ctx, {"name": f"twin-{n}", "ops": [opsA, opsB], "fail_every": rng.choice([0, 2, 3])})
+
+
+# --------------------------------------------------------------------------- stream: lifecycle
+
+
+def lifecycle_case(ctx: Ctx, scn: dict, verbose=False) -> None:
+    """A driver that owns its event loop and its thread pool (no loop= argument), run through the public
+    start() / stop().  The pool is sized by the driver from os.cpu_count() (scn["cpus"]: the board the
+    accessory runs on); scn["blockers"] accessories of a bridge have an ordinary blocking run() (the
+    documented alternative to `async def run`), each occupying a worker until its stop() is called and it
+    has wound down (scn["wind_down"] seconds) - so the pool may be saturated when a pairing change submits
+    its save, and the save job then sits in the pool's queue when stop() is called.  Pairing changes are made
+    on the loop (as the request handler does), scn["settle"] says after which of them the pool is given time
+    to run what it can.  Judged after start() has returned (the driver has stopped) and the pool's threads
+    have ended: the state file equals the in-memory identity and pairing state."""
+    if getattr(ctx, "hung", False):
+        return
+    ad, _, _ = _pyhap()
+    from pyhap.accessory import Accessory, Bridge
+
+    st = ctx.stats
+    d = tempfile.mkdtemp(prefix="c15l-")
+    path = os.path.join(d, STATE_FILE)
+    replay = {"kind": "lifecycle", "scenario": scn}
+    started = [0]
+    slock = threading.Lock()
+
+    class Blocking(Accessory):
+        def __init__(self, *a, **kw):
+            super().__init__(*a, **kw)
+            self._bye = threading.Event()
+
+        def run(self):  # an ordinary blocking method: runs in a worker of the driver's pool
+            with slock:
+                started[0] += 1
+            self._bye.wait(HANG_S)
+            time.sleep(scn["wind_down"])
+
+        async def stop(self):
+            self._bye.set()
+
+    class Quiet(Bridge):
+        def setup_message(self):
+            pass
+
+    real_cpu = os.cpu_count
+    os.cpu_count = lambda: scn["cpus"]
+    app_loop = app_pool = None
+    try:
+        kw = dict(
+            persist_file=path, address="127.0.0.1", port=51840, mac="AA:BB:CC:DD:EE:10", pincode=b"031-45-154",
+            async_zeroconf_instance=_FakeAdvertiser(),
+        )
+        if scn.get("app_loop"):
+            # the application supplies the loop and its default pool (sized like the driver would) and stops both itself
+            from concurrent.futures import ThreadPoolExecutor
+
+            app_loop = asyncio.new_event_loop()
+            app_pool = ThreadPoolExecutor()
+            app_loop.set_default_executor(app_pool)
+            kw["loop"] = app_loop
+        driver = ad.AccessoryDriver(**kw)
+    finally:
+        os.cpu_count = real_cpu
+    try:
+        driver.http_server = _StubServer()
+        saves: List[Any] = []  # the futures of the background saves (diagnostics for the failure message)
+        orig_rie = driver.loop.run_in_executor
+
+        def run_in_executor(executor, fn, *args):
+            f = orig_rie(executor, fn, *args)
+            if getattr(fn, "__name__", "") == "persist":
+                saves.append(f)
+            return f
+
+        driver.loop.run_in_executor = run_in_executor
+        bridge = Quiet(driver, "Bridge")
+        for i in range(scn["blockers"]):
+            bridge.add_accessory(Blocking(driver, f"Sensor {i}"))
+        driver.add_accessory(bridge)
+        workers = min(32, scn["cpus"] + 4)
+        if app_loop is None:
+            t = threading.Thread(target=driver.start, daemon=True)
+            t.start()
+        else:
+            t = threading.Thread(target=app_loop.run_forever, daemon=True)
+            t.start()
+            driver.start_service()
+        want = min(scn["blockers"], workers)
+        deadline = time.monotonic() + HANG_S
+        while started[0] < want and time.monotonic() < deadline:
+            time.sleep(0.005)
+        if started[0] < want:
+            raise Hung("the accessories' run() methods were not started")
+        trace = []
+        for i, op in enumerate(scn["ops"]):
+            done = threading.Event()
+            box: Dict[str, Any] = {}
+
+            def on_loop(op=op, done=done, box=box):
+                try:
+                    if op["op"] == "pair":
+                        driver.pair(op["id"].encode(), bytes.fromhex(op["key"]), bytes([op["perm"]]))
+                    elif op["op"] == "unpair":
+                        if uuid.UUID(op["id"]) in driver.state.paired_clients:
+                            driver.unpair(uuid.UUID(op["id"]))
+                except Exception as ex:  # noqa: BLE001
+                    box["ex"] = ex
+                finally:
+                    done.set()
+
+            if op["op"] == "config_changed":  # from an application thread; saves synchronously
+                th = threading.Thread(target=driver.config_changed, daemon=True)
+                th.start()
+                th.join(HANG_S)
+            else:
+                driver.loop.call_soon_threadsafe(on_loop)
+                if not done.wait(HANG_S):
+                    raise Hung("a pairing change handed to the loop was not run")
+            trace.append(op["op"])
+            if i in scn.get("settle", []):
+                time.sleep(0.05)
+        if app_loop is None:
+            driver.stop()
+            t.join(HANG_S)
+            if t.is_alive():
+                raise Hung("driver.start() did not return after stop()")
+            if driver.executor is not None:
+                driver.executor.shutdown(wait=True)  # whatever the pool still runs may finish; nothing is revived
+        else:
+            try:
+                asyncio.run_coroutine_threadsafe(driver.async_stop(), app_loop).result(HANG_S)
+            except Exception as ex:  # noqa: BLE001
+                raise Hung(f"async_stop() did not return ({type(ex).__name__})") from None
+            app_pool.shutdown(wait=True)  # the application lets its pool finish what it was given
+            app_loop.call_soon_threadsafe(app_loop.stop)
+            t.join(HANG_S)
+            if not t.is_alive():
+                app_loop.close()
+        mem = ref.canon_state(driver.state)
+        which, why = judge_file(path, [("memory", mem)])
+        saturated = scn["blockers"] >= workers
+        st.hit("op", "lifecycle-run")
+        st.hit("outcome", f"lifecycle[pool={'saturated' if saturated else 'has-idle-workers'}]:file=" + ("memory" if which else "STALE"))
+        st.case(["lifecycle", scn], saturated)
+        if verbose:
+            print(f"pool of {workers} workers, {scn['blockers']} blocking accessories; operations {trace}; stop(); start() returned;",
+                  "file == memory" if which else "STALE: " + why)
+        if which is None:
+            ctx.fail(
+                "C15:file-stale-after-driver-stopped",
+                f"a driver {'on an application-supplied loop and pool' if app_loop is not None else 'owning its loop and pool'} ({workers} workers for {scn['cpus']} cpu(s), {scn['blockers']} accessories with a "
+                f"blocking run()); operations {trace} on the loop, then stop(); after start() had returned and the pool's "
+                f"threads had ended the state file is not the in-memory state "
+                f"({sum(1 for f in saves if f.cancelled())} of {len(saves)} submitted background saves were cancelled, "
+                f"{sum(1 for f in saves if not f.done())} never finished): {why}",
+                replay,
+            )
+    except Hung as ex:
+        ctx.hung = True
+        ctx.fail("C15:save-blocks-forever", f"lifecycle: {ex}", replay)
+    finally:
+        shutil.rmtree(d, ignore_errors=True)
+
+
+def lifecycle_stream(ctx: Ctx):
+    rng = ctx.rng
+    st = ctx.stats
+    A = mk_ops(rng, 0, 1)[1][0]
+    B = mk_ops(rng, 0, 1)[1][0]
+    cases = []
+    # the pool dimension: idle workers / exactly full / more blocking accessories than workers (queue non-empty)
+    for cpus, blockers in ((1, 0), (1, 4), (1, 5), (1, 8), (2, 6), (2, 9)):
+        cases.append({"cpus": cpus, "blockers": blockers, "wind_down": 0.05, "ops": [A], "settle": []})
+    cases.append({"cpus": 1, "blockers": 7, "wind_down": 0.1, "ops": [A, B], "settle": []})
+    cases.append({"cpus": 1, "blockers": 7, "wind_down": 0.05, "ops": [A, {"op": "unpair", "id": A["id"]}], "settle": [0]})
+    cases.append({"cpus": 1, "blockers": 6, "wind_down": 0.05, "ops": [A, {"op": "config_changed"}, B], "settle": []})
+    cases.append({"cpus": 1, "blockers": 6, "wind_down": 0.0, "ops": [A], "settle": []})
+    cases.append({"cpus": 1, "blockers": 6, "wind_down": 0.05, "ops": [A], "settle": [], "app_loop": True})
+    cases.append({"cpus": 1, "blockers": 0, "wind_down": 0.0, "ops": [A, B], "settle": [], "app_loop": True})
+    if _lite(ctx):
+        cases = cases[2:5]
+    for n in range(ctx.n(4, 60)):
+        cpus = rng.choice([1, 1, 2, 4])
+        workers = min(32, cpus + 4)
+        _, ops = mk_ops(rng, 0, rng.randrange(1, 4))
+        if rng.random() < 0.3:
+            ops.insert(rng.randrange(len(ops) + 1), {"op": "config_changed"})
+        cases.append({
+            "cpus": cpus, "blockers": rng.choice([0, workers - 1, workers, workers + 1, workers + 3]),
+            "wind_down": rng.choice([0.0, 0.02, 0.08]), "ops": ops,
+            "settle": [i for i in range(len(ops)) if rng.random() < 0.3],
+            "app_loop": rng.random() < 0.25,
+        })
+    for scn in cases:
+        lifecycle_case(ctx, dict(scn, name="lifecycle"))
+    st.sample({"stream": "lifecycle", "example": {k: v for k, v in cases[0].items() if k != "ops"}, "meaning": "driver owning loop + pool, pool sized for `cpus`, `blockers` accessories with a blocking run(); pairing change on the loop; stop(); judged after start() returned"})
+
+
 # --------------------------------------------------------------------------- stream: natural
 
 
@@ -1364,11 +2118,10 @@ def natural_case(ctx: Ctx, scn: dict, ops: List[dict], jitter: Dict[str, float],
 
             async def go():
                 for op, gap in zip(ops, gaps):
-                    with rig.hooks.state_mutex:
-                        if op["op"] == "pair":
-                            rig.driver.pair(op["id"].encode(), bytes.fromhex(op["key"]), bytes([op["perm"]]))
-                        else:
-                            rig.driver.unpair(uuid.UUID(op["id"]))
+                    if op["op"] == "pair":
+                        rig.driver.pair(op["id"].encode(), bytes.fromhex(op["key"]), bytes([op["perm"]]))
+                    else:
+                        rig.driver.unpair(uuid.UUID(op["id"]))
                     await asyncio.sleep(gap)
 
             rig.loop.run_until_complete(go())
@@ -1998,7 +2751,10 @@ def run(ctx: Ctx):
         "back-fill on a legacy file, config_changed, async_start) then random sequences of 2-6 such operations "
         "through the real handler, judged at quiescence. Non-trivial: the crash happened "
         "before the save completed / a fault actually fired / a job was run while another was parked mid-save / "
-        "more than one background job / an operation changed the in-memory state. Distinct by scenario + crash point / fault list / command list."
+        "more than one background job / an operation changed the in-memory state. midread: a save parked before each "
+        "attribute read x {pair, unpair, last-admin sweep}, a change parked before each store x a concurrent save, random "
+        "mixes; twin: two drivers in one directory; lifecycle: own loop + pool sized for 1/2/4 cpus x 0..workers+3 blocking "
+        "accessories x pairing changes, then stop(), judged after start() returned. Distinct by scenario + crash point / fault list / command list."
     )
     model_cases: list = []
     try:
@@ -2012,6 +2768,9 @@ def run(ctx: Ctx):
             )
         fault_stream(ctx, model_cases)
         schedule_stream(ctx, model_cases)
+        midread_stream(ctx, model_cases)
+        twin_stream(ctx, model_cases)
+        lifecycle_stream(ctx)
         natural_stream(ctx)
         public_stream(ctx)
         _run_models(ctx, model_cases)
@@ -2033,6 +2792,8 @@ def search(ctx: Ctx):
             if threading.active_count() == 1:  # fork wants a single-threaded parent
                 crash_scenario(ctx, scn, sink)
         schedule_stream(ctx, sink)
+        midread_stream(ctx, sink)
+        lifecycle_stream(ctx)
         natural_stream(ctx)
         public_stream(ctx)
         fault_stream(ctx, sink)
@@ -2050,9 +2811,13 @@ def replay(ctx: Ctx, r):
     elif kind == "fault":
         fault_case(ctx, r["scenario"], r["saves"], sink, verbose=True)
     elif kind == "schedule":
-        schedule_case(ctx, r["scenario"], r["cmds"], sink, timeout=0.5, faults=tuple(tuple(f) for f in r.get("faults", [])), verbose=True)
+        schedule_case(ctx, r["scenario"], r["cmds"], sink, timeout=0.5, faults=tuple(tuple(f) for f in r.get("faults", [])), verbose=True, stop_after=r.get("stop_after"))
     elif kind == "public":
         public_case(ctx, r["scenario"], r["ops"], verbose=True)
+    elif kind == "twin":
+        twin_case(ctx, r["scenario"], verbose=True)
+    elif kind == "lifecycle":
+        lifecycle_case(ctx, r["scenario"], verbose=True)
     elif kind == "natural":
         for _ in range(20):  # timing dependent: try a few times
             if not natural_case(ctx, r["scenario"], r["ops"], r["jitter"], r["gaps"], verbose=True):
